@@ -60,7 +60,10 @@ TEXT["C10"] = {
             "iterator model returns is <= that prime, an iterator positioned there returns it and then fails with "
             "primesieve_error on every later call for any hint/block policy/float oracle; checkedAdd/checkedSub "
             "saturate. Tied to the code by the iter, count and segment streams with arguments in the top of the range. "
-            "Partial: the no-wrap lemmas for the cross-off index arithmetic belong to the sieve chain (not yet proved).",
+            "Sieve core: Wheel::addSievingPrime with wrapping uint64_t arithmetic equals the same function over unbounded "
+            "integers for every sieving prime < 2^32, segment start and stop < 2^64 (both overflow guards proved sufficient), "
+            "stores the least admissible multiple or drops the prime exactly when none is <= stop. Partial: no-wrap of the "
+            "index arithmetic inside the cross-off loops is tied by the cross/segment streams.",
     "design_ref": "DESIGN.md section 8 C10", "note": _IGEN,
     "technique": "Lean 4 proof (Lucas primality certificate, saturation lemmas, iterator refinement) + correspondence"}
 
